@@ -52,7 +52,7 @@ def case_val(c):
     """c = dict(pattern=str|bytes, flags=dict, files=[(path|None, bytes)], modes=[mode dict])"""
     return vlist([vbytes(c["pattern"]), flags_val(c["flags"]),
                   vlist([vlist([obytes(p), vbytes(i)]) for p, i in c["files"]]),
-                  vlist([mode_val(m) for m in c["modes"]])])
+                  vlist([mode_val(m) for m in c["modes"]]), str(int(c.get("chunk", 0) or 0))])
 
 
 def unparse(v):
@@ -89,7 +89,7 @@ def run_cases(ctx, cases, what="printers"):
     res = [None] * len(cases)
     for i, v in enumerate(parsed):
         if v is not None and v[0] != 0:
-            res[i] = (v[0], None, None, lines[i], None, True, None)
+            res[i] = (v[0], None, None, lines[i], None, True, None, [])
     for j, i in enumerate(idx):
         mo = mouts[j]
         mv = parse_val(mo) if mo.startswith("(") else mo
@@ -97,7 +97,8 @@ def run_cases(ctx, cases, what="printers"):
         # third component of a mode's real result: bytes written to the writer per file (not part of the model's result)
         real = [m[:2] for m in parsed[i][2]]
         written = [m[2] if len(m) > 2 else [] for m in parsed[i][2]]
-        res[i] = (0, real, mv, lines[i], bool(parsed[i][1][0][1]), bool(parsed[i][3]), written)
+        short = parsed[i][4] if len(parsed[i]) > 4 else []
+        res[i] = (0, real, mv, lines[i], bool(parsed[i][1][0][1]), bool(parsed[i][3]), written, short)
     return res
 
 
